@@ -43,6 +43,14 @@ CLAIMED = {
             "shorter arrays, int/float/null swaps) and the verdict must equal the one TLC computed; TLC also checks order-independence and "
             "monotonicity of KeysAreOptionalByDefault on the requirement itself.",
             "Exhaustive only below the enumeration bounds (depth 2/3, width 2/3); deeper nesting covered by the random trace tier of C03's driver.", "3/C01"),
+    "C02": ("TLA+ three-valued rule semantics (Sem!ScalarVerdict over exact decimals, decoded strings, an RE2-style regex matcher and format "
+            "recognisers written in TLA+); TLC enumerates rule-set families x boundary probes with verdict vectors; replay through jschema.Validate",
+            "Every generated scalar schema (numeric bounds with all exclusive/nullable/false-valued variants, decimal precision, string lengths, "
+            "nine regexes, five formats, enum, const) is validated against every probe value placed on, just inside and just outside each "
+            "boundary (long decimals, escape-heavy strings, kind confusions, null) and must give the verdict TLC computed; unspecified cells "
+            "(other spellings of equal numerals in const/enum, non-core format strings, non-ASCII lengths) derive no verdict.",
+            "Exhaustive over the enumerated families only; format accept/reject sets are core sets, the exact languages of net/mail, net/url, "
+            "time.Parse and RE2 are not re-specified.", "3/C02"),
 }
 
 PENDING_REASON = "check under construction in this session - not claimed yet (no technique switch intended; see DESIGN.md section 3)"
